@@ -80,8 +80,15 @@ class Hook:
 
 def describe_exc(e):
     cause = e.__cause__
-    return {"cls": c13_exc.clsname(e), "args": [c13_exc.enc_arg(a) for a in e.args], "notes": list(getattr(e, "__notes__", []) or []),
-            "cause": c13_exc.clsname(cause) if cause is not None else None}
+    d = {"cls": c13_exc.clsname(e), "args": [c13_exc.enc_arg(a) for a in e.args], "notes": list(getattr(e, "__notes__", []) or []),
+         "cause": c13_exc.clsname(cause) if cause is not None else None}
+    if cause is not None:
+        try:
+            d["cause_exc"] = {"cls": c13_exc.clsname(cause), "args": [c13_exc.enc_arg(a) for a in cause.args],
+                              "notes": list(getattr(cause, "__notes__", []) or [])}
+        except Exception:  # noqa: BLE001
+            pass
+    return d
 
 
 def enc_kwargs(kw):
@@ -326,9 +333,9 @@ def call_injection(desc, inj, base, n):
             if entry == "scope":                  # every input and output under the scope "s": called with the scoped names
                 q = p.copy()
                 q.update_scope("s", inputs="*", outputs="*")
-            elif entry == "nested":               # all functions nested into one NestedPipeFunc
+            elif entry == "nested":               # all functions the call invokes nested into one NestedPipeFunc
                 q = p.copy()
-                q.nest_funcs("*", tuple(step["nest_out"]))
+                q.nest_funcs(set(step["nest_out"]), tuple(step["nest_out"]))
             elif entry == "nested_rest":          # every function but the failing one nested: the NestedPipeFunc itself never fails
                 q = p.copy()
                 q.nest_funcs(set(step["nest_out"]))
@@ -376,6 +383,9 @@ def call_injection(desc, inj, base, n):
 
 def worker_main(conn, job):
     """Entry point of a worker process: one observation per injection, in order."""
+    global SOFT_TIMEOUT
+    if job.get("soft_timeout"):          # the confirmation run of a suspected hang: a longer watchdog
+        SOFT_TIMEOUT = float(job["soft_timeout"])
     base = tempfile.mkdtemp(prefix="verif-c13-w-", dir=job["base"])
     devnull = os.open(os.devnull, os.O_WRONLY)
     os.dup2(devnull, 1)          # PipeFunc.__call__ prints on failure, also from pool threads
